@@ -60,6 +60,10 @@ unsafe impl GlobalAlloc for Counting {
             if ARMED.load(Relaxed) && l.size() > MAXREQ.load(Relaxed) {
                 MAXREQ.store(l.size(), Relaxed);
             }
+            // the process is about to abort (handle_alloc_error); whatever the abort path
+            // allocates (message, backtrace) must not be traced, or it deadlocks on std's
+            // backtrace lock
+            IN_CAPTURE.store(true, Relaxed);
             return std::ptr::null_mut();
         }
         let p = System.alloc(l);
@@ -73,6 +77,7 @@ unsafe impl GlobalAlloc for Counting {
             if ARMED.load(Relaxed) && l.size() > MAXREQ.load(Relaxed) {
                 MAXREQ.store(l.size(), Relaxed);
             }
+            IN_CAPTURE.store(true, Relaxed);
             return std::ptr::null_mut();
         }
         let p = System.alloc_zeroed(l);
@@ -87,6 +92,7 @@ unsafe impl GlobalAlloc for Counting {
     }
     unsafe fn realloc(&self, p: *mut u8, l: Layout, new_size: usize) -> *mut u8 {
         if new_size > SERVE_LIMIT {
+            IN_CAPTURE.store(true, Relaxed);
             return std::ptr::null_mut();
         }
         let q = System.realloc(p, l, new_size);
